@@ -112,9 +112,17 @@ type driver struct {
 }
 
 type groundWorld struct {
-	w *world
-	g *ground
-	i int // the node used for validation
+	w        *world
+	g        *ground
+	i        int // the node used for validation
+	reported bool
+}
+
+func histName(h string) string {
+	if h == "" {
+		return "none"
+	}
+	return h
 }
 
 func (d *driver) closeAll() {
@@ -125,12 +133,19 @@ func (d *driver) closeAll() {
 }
 
 // groundFor returns a real system that has committed `last` heights (round change at the last one when rc).
-func (d *driver) groundFor(powers []int64, last int64, rc bool) (*groundWorld, error) {
-	key := fmt.Sprint(powers, last, rc)
+func (d *driver) groundFor(powers []int64, last int64, rc bool, hist string) (*groundWorld, error) {
+	key := fmt.Sprint(powers, last, rc, hist)
 	if gw, ok := d.grounds[key]; ok {
 		return gw, nil
 	}
-	w, err := newWorld(powers, nil, nil)
+	var h *history
+	if hist != "" && hist != "none" {
+		if last < 1 {
+			return nil, fmt.Errorf("a validator-set history needs Last >= 1")
+		}
+		h = &history{kind: hist, at: last} // block `last` changes the set of height last+1
+	}
+	w, err := newWorld(powers, nil, h)
 	if err != nil {
 		return nil, err
 	}
@@ -142,6 +157,14 @@ func (d *driver) groundFor(powers []int64, last int64, rc bool) (*groundWorld, e
 			w.close()
 			return nil, err
 		}
+	}
+	if h.active() {
+		st := w.s.Nodes[w.s.HonestIdx()[0]].CS.GetState()
+		if w.histFired == 0 || sameSet(st.Validators, w.priors[w.s.HonestIdx()[0]][last-1].validators) {
+			w.close()
+			return nil, fmt.Errorf("the validator change %s did not reach the validator set of height %d", h, last+1)
+		}
+		d.rep.Count("ground_systems_with_validator_change")
 	}
 	gw := &groundWorld{w: w, i: w.s.HonestIdx()[0]}
 	gw.g = groundOf(w, gw.i)
@@ -178,14 +201,22 @@ func (d *driver) mbt(ti int, tr mbt.Trace) {
 	seed := cfgInt(tr.Cfg, "seed", 1)
 	variants := cfgInt(tr.Cfg, "variants", 1)
 	rc := cfgInt(tr.Cfg, "rc", 0) != 0
-	gw, err := d.groundFor(powers, last, rc)
+	hist, _ := tr.Cfg["hist"].(string)
+	gw, err := d.groundFor(powers, last, rc, hist)
 	if err != nil {
 		d.fail(ti, tr, 0, "setup", "error", false, "setup", "cannot build the ground chain: "+err.Error(), nil, nil)
 		return
 	}
 	g := gw.g
 	node := gw.w.s.Nodes[gw.i]
-	p := priorOf(g.st)
+	// the state block last+1 must extend, with the set that signed block `last` taken from the driver's own record
+	p := gw.w.priors[gw.i][last]
+	if !gw.reported {
+		gw.reported = true
+		for _, x := range gw.w.histBad {
+			d.fail(ti, tr, 0, "ExecBlock", "property", true, x.kind+":"+histName(hist), x.detail+" (validator-set history "+histName(hist)+")", nil, nil)
+		}
+	}
 	blkOf := func(st mbt.Step) interface{} {
 		if b, ok := st.Post["blk"]; ok {
 			return b
@@ -210,6 +241,9 @@ func (d *driver) mbt(ti int, tr mbt.Trace) {
 		}
 		want := normWant(mbt.Str(st.Args[0]))
 		wantR, wantVB, wantVC := want, want, want
+		if hist != "" && hist != "none" {
+			action += " after " + hist
+		}
 		for k := 0; k < variants; k++ {
 			cc, ok := cache[k]
 			if !ok {
@@ -322,7 +356,11 @@ func (d *driver) chain(ti int, tr mbt.Trace) {
 	var w *world
 	var err error
 	pn, stack := mbt.Catch(func() {
-		w, err = newWorld(powers, nil, nil)
+		var h *history
+		if hk, _ := tr.Cfg["hist"].(string); hk != "" && hk != "none" {
+			h = &history{kind: hk, at: int64(cfgInt(tr.Cfg, "histAt", 1))}
+		}
+		w, err = newWorld(powers, nil, h)
 		if err != nil {
 			return
 		}
@@ -330,6 +368,9 @@ func (d *driver) chain(ti int, tr mbt.Trace) {
 			w.drop = dropProposalAt(rc)
 		}
 		err = w.run(heights)
+		if err == nil && h.active() && w.histFired == 0 {
+			err = fmt.Errorf("the validator change %s never happened", h)
+		}
 	})
 	if w != nil {
 		defer w.close()
@@ -362,6 +403,12 @@ func (d *driver) chain(ti int, tr mbt.Trace) {
 				d.fail(ti, tr, 0, fmt.Sprintf("check(node %d, height %d)", i, h), "property", true, x.kind, x.detail, nil, nil)
 			}
 		}
+	}
+	for _, x := range w.histBad {
+		d.fail(ti, tr, 0, "chain", "property", true, x.kind, x.detail, nil, nil)
+	}
+	if w.hist.active() {
+		d.rep.Count("chains_with_validator_change")
 	}
 	if msg := w.s.CheckAgreement(); msg != "" {
 		d.fail(ti, tr, 0, "chain", "property", true, "Agreement", msg, nil, nil)
